@@ -96,8 +96,27 @@ def script_cases(rnd, quick):
             dummy = b"" if rnd.random() < 0.8 else b"\x01"
             stack = [dummy] + [sign(rnd, sks[w], tx, idx, code, ht, segwit, amount) for w in which]
         label = "valid"
+        # lock-time opcodes in front of the signature check: satisfied and unsatisfied against this transaction
+        if rnd.random() < 0.35 and shape in ("checksig", "checksigverify"):
+            which = rnd.choice(("cltv", "csv"))
+            if rnd.random() < 0.7:
+                # a transaction against which the lock can be satisfied: version 2, non-final sequence without the disable bit
+                vin0 = list(tx[1]); i0 = list(vin0[idx]); i0[4] = rnd.choice((5, 0, 0x400005, 0xfffffffe if which == "cltv" else 7)); vin0[idx] = tuple(i0)
+                tx = (2, vin0, tx[2], rnd.choice((500, 500000001, 0)))
+            if which == "cltv":
+                lockv = tx[3]
+                n = rnd.choice((0, 1, 499, 500, 501, 499999999, 500000000, 500000001, 500000002, 0xffffffff, lockv, max(0, lockv - 1), lockv + 1, lockv, lockv))
+                pre = R.pushnum(n) + bytes([0xb1, 0x75])
+            else:
+                seqv = tx[1][idx][4]
+                n = rnd.choice((0, 1, 4, 5, 6, 10, 0x400000, 0x400005, 0x80000000, 0xffff, 0x10000, seqv & 0x40ffff, seqv & 0x40ffff, (seqv & 0x40ffff) + 1, max(0, (seqv & 0x40ffff) - 1)))
+                pre = R.pushnum(n) + bytes([0xb2, 0x75])
+            script = pre + script
+            code = script
+            stack = [sign(rnd, sk, tx, idx, code, ht, segwit, amount)]
+            shape = shape + "+" + which
         # corruption
-        c = rnd.randrange(12)
+        c = rnd.randrange(16)
         if c == 0 and stack:
             j = rnd.randrange(len(stack)); b = bytearray(stack[j])
             if b:
@@ -132,6 +151,20 @@ def script_cases(rnd, quick):
                 stack[-1] = b"\x30" + bytes([len(body)]) + body + s0[-1:]; label = "der-padding"
             except Exception:
                 pass
+        elif c == 12 and shape in ("checksig", "checksigverify"):
+            # public key of a wrong length (truncated / extended), compressed and uncompressed
+            bad = rnd.choice((pk[:-1], pk + b"\x00", P.pubkey(sk, False)[:-1], P.pubkey(sk, False) + b"\x01", b"\x04" + pk[1:], b"\x02" + P.pubkey(sk, False)[1:]))
+            script = P.push(bad) + script[len(P.push(pk)):]
+            stack = [sign(rnd, sk, tx, idx, script, ht, segwit, amount)]; label = "key-length"
+        elif c == 13 and shape.startswith("multisig"):
+            stack = stack[1:]; label = "no-dummy"
+        elif c == 14 and shape.startswith("multisig") and len(stack) > 1 and not segwit:
+            # a signature of the multisig also occurs in the script: FindAndDelete under CONST_SCRIPTCODE
+            script = P.push(stack[1]) + bytes([0x75]) + script; label = "multisig-find-and-delete"
+        elif c == 15:
+            # only LOW_S on, the signature not DER at all
+            fl = (R.STD | (1 << FB["LOW_S"])) & ~(1 << FB["DERSIG"]) & ~(1 << FB["STRICTENC"])
+            if stack and stack[-1]: stack[-1] = b"\x31" + stack[-1][1:]; label = "low-s-only-nonder"
         txs = ",".join(amt_txt) + ":" + P.ser_tx(tx).hex()
         line = "SPEND %s - -1 %d 0 - 0 %s %s" % (txs.encode().hex(), fl, script.hex() or "_", ",".join((x.hex() or "_") for x in stack) or "-")
         out.append((line, {"shape": shape, "label": label, "segwit": segwit, "ht": ht, "flags": fl, "comp": comp}))
